@@ -133,6 +133,11 @@ func bstType() typeDef {
 				for _, k := range []int{3, 1, 5, 2, 4} {
 					b.Upsert(k, k*10)
 				}
+				// and a thousand more, scattered: a Traverse that hands its items over in blocks has several blocks to hand over
+				for i := 0; i < 1201; i++ {
+					k := 10 + (i*7919)%1201
+					b.Upsert(k, k*10)
+				}
 			}
 			return b
 		},
